@@ -125,6 +125,30 @@ def check_cv(run, E):
     yield ck
 
 
+def check_rank_pooling(run, E):
+    """_nan_rank_data: tie-averaged ranks (scipy rankdata, default 'average') of the NON-missing entries, NaN elsewhere"""
+    IU = 'rsatoolbox.util.inference_util.'
+    ck = FuncCheck(E, run, 'C07', IU + '_nan_rank_data', '')
+
+    def mk(E):
+        return [E.sym_val('v', tag='ndarray')], {}, []
+
+    def post(ck, E, args, kw, p):
+        v = args[0]
+        present = E.app('invert', [E.app('numpy.isnan', [v])])
+        ranks = E.app('scipy.stats.rankdata', [E.getitem(v, present)])
+        a = peel(p.value, 'setitem')
+        ck.ensure('post/ranks-written-into-a-nan-vector', z3.BoolVal(a is not None), structure=True)
+        if a is None:
+            return
+        ck.ensure_eq('post/placed-at-the-non-missing-positions', a[1], present)
+        ck.ensure_eq('post/values-are-tie-averaged-ranks-of-the-non-missing-entries', a[2], ranks)
+        base = peel(a[0], 'op*')
+        ck.ensure('post/missing-entries-stay-nan', z3.BoolVal(base is not None and isinstance(base[1], float) and base[1] != base[1]))
+    ck.execute(mk, post=post, allow_raise=lambda *a: None)
+    yield ck
+
+
 def lean_lemmas(run):
     """Lean 4 + Mathlib lemmas over the pooling contract (compiled by setup.sh; re-checked here)"""
     src = os.path.join(ROOT, 'vf', 'lemmas', 'PooledOptimal.lean')
@@ -156,7 +180,7 @@ def lean_lemmas(run):
 def run(run):
     E = new_engine(run)
     fails = []
-    for gen in (check_boot, check_cv):
+    for gen in (check_boot, check_cv, check_rank_pooling):
         for ck in gen(run, E):
             fails += ck.failed
     finish_engine(E, run)
